@@ -5,7 +5,7 @@ import functools
 import heapq
 import itertools
 
-from world import (ALL_KINDS, FILL, Item, Susp, SyncIterSource, SrcState, UserBaseExc, UserExc, asyncstdlib, canon,
+from world import (ALL_KINDS, FILL, Acc, Item, Susp, SyncIterSource, SrcState, UserBaseExc, UserExc, asyncstdlib, canon,
                    drive, exc_name, make_source, user_exc)
 
 A = asyncstdlib
@@ -35,6 +35,8 @@ def mkval(j):
         return float(j[1])
     if tag == "s":
         return j[1]
+    if tag == "acc":
+        return Acc(j[1])
     raise ValueError(j)
 
 
@@ -83,6 +85,8 @@ def _base(spec):
         return lambda n, args: bool(args[0])
     if kind == "pair":
         return lambda n, args: tuple(args)
+    if kind == "add":
+        return lambda n, args: args[0] + args[1]
     if kind == "key":
         return lambda n, args: _key(args[0])
     if kind == "negkey":
@@ -98,7 +102,9 @@ def _base(spec):
     raise ValueError(kind)
 
 
-def make_fn(spec, idx, log, flavour="def"):
+def make_fn(spec, idx, log, flavour="def", stop_cls=StopAsyncIteration):
+    """`fail_kind: "stop"`: the failing invocation raises the end-of-iteration signal of the protocol in use
+    (`StopAsyncIteration` under asyncstdlib, `StopIteration` under the standard library) instead of an injected fault"""
     base = _base(spec)
     state = {"n": 0}
     nsusp = spec.get("susp", 0) if flavour != "def" else 0
@@ -113,6 +119,8 @@ def make_fn(spec, idx, log, flavour="def"):
         log.append(["call", idx, [canon(a) for a in args]])
         if spec.get("fail_at") == n:
             log.append(["callerr", idx, spec.get("eid", 0)])
+            if spec.get("fail_kind") == "stop":
+                raise stop_cls()
             raise user_exc(spec.get("eid", 0))
         v = base(n, args)
         log.append(["ret", idx, canon(v)])
@@ -421,7 +429,7 @@ def run_sync(case):
     for i, src in enumerate(case["srcs"]):
         st = SrcState(i, "iter")
         S.append(SyncIterSource(mkscript(src["script"]), st, log))
-    F = [make_fn(spec, i, log, "def") for i, spec in enumerate(case.get("fns", []))]
+    F = [make_fn(spec, i, log, "def", StopIteration) for i, spec in enumerate(case.get("fns", []))]
     cons = case["cons"]
     try:
         thing = SYNC_TOOLS[case["tool"]](S, F, p)
